@@ -57,7 +57,7 @@ contract(GEN + '.generate_variant_bytecode_parts', props=['C01'], name='opcode-p
 
 EN = 'bespokeasm.assembler.model.operand.types.enumeration_operand:EnumerationOperand.parse_operand'
 BD, AD = 'self._bytecode_dictionary', 'self._argument_dictionary'
-contract(EN, props=['C01'], blocks_only=True, returns='ParsedOperand?',
+contract(EN, props=['C01', 'C13'], blocks_only=True, returns='ParsedOperand?',
          locals={'matched_key': 'str', 'bytecode_part': 'NumericByteCodePart?', 'arg_part': 'NumericByteCodePart?', 'match': 'match'},
          blocks={'fields': dict(
              where='between:matched_key = ::if bytecode_part is None and arg_part is None', locals={},
